@@ -1373,3 +1373,80 @@ func ruleT5(c *Ctx) []Ob {
 	}
 	return s.obs
 }
+
+// storesAppendFunc: on every path from its entry to a return, f stores the AppendFunc field of its descriptor parameter
+// (directly, or by calling a function that does).
+func storesAppendFunc(f *ssa.Function, depth int) bool { return storesAppendFuncFrom(f, nil, depth) }
+
+// storesAppendFuncFrom starts the path search at block `from` (the block that allocates the descriptor) instead of the entry.
+func storesAppendFuncFrom(f *ssa.Function, from *ssa.BasicBlock, depth int) bool {
+	if f == nil || f.Blocks == nil || depth > 2 {
+		return false
+	}
+	setters := map[*ssa.BasicBlock]bool{}
+	for _, b := range f.Blocks {
+		for _, ins := range b.Instrs {
+			switch x := ins.(type) {
+			case *ssa.Store:
+				if _, typ, fld, ok := fieldOf(x.Addr); ok && typ == "tType" && fld == "AppendFunc" && !isNilConst(x.Val) {
+					setters[b] = true
+				}
+			case *ssa.Call:
+				if cf := x.Call.StaticCallee(); cf != nil && cf != f && fnPkgPath(cf) == pkgReflect && len(cf.Params) == 1 && namedOf(cf.Params[0].Type()) == "tType" && storesAppendFunc(cf, depth+1) {
+					setters[b] = true
+				}
+			}
+		}
+	}
+	if len(setters) == 0 {
+		return false
+	}
+	// a return reachable from the entry without passing a setting block?
+	seen := map[*ssa.BasicBlock]bool{}
+	start := f.Blocks[0]
+	if from != nil {
+		start = from
+	}
+	stack := []*ssa.BasicBlock{start}
+	for len(stack) > 0 {
+		b := stack[len(stack)-1]
+		stack = stack[:len(stack)-1]
+		if seen[b] || setters[b] {
+			continue
+		}
+		seen[b] = true
+		if _, ok := b.Instrs[len(b.Instrs)-1].(*ssa.Return); ok {
+			return false
+		}
+		stack = append(stack, b.Succs...)
+	}
+	return true
+}
+
+func init() {
+	registerExtra("T6.map-registrations", func(c *Ctx, s *obSink) {
+		// every descriptor gets an encode routine: the generic map/list routines and the (DOUBLE, scalar) fast paths call
+		// t.K.AppendFunc / t.V.AppendFunc for scalar kinds too, so no kind may be left with a nil function value
+		var ctor *ssa.Function
+		var allocBlk *ssa.BasicBlock
+		for _, fn := range c.ModuleFuncs(pkgReflect) {
+			for _, b := range fn.Blocks {
+				for _, ins := range b.Instrs {
+					if st, ok := ins.(*ssa.Store); ok {
+						if recv, typ, fld, ok := fieldOf(st.Addr); ok && typ == "tType" && fld == "AppendFunc" && localAlloc(recv) {
+							ctor = fn
+							if al, ok := recv.(*ssa.Alloc); ok {
+								allocBlk = al.Block()
+							}
+						}
+					}
+				}
+			}
+		}
+		if ctor == nil {
+			s.bad("AppendFunc:total", "-", "no function installs AppendFunc on a descriptor it builds")
+			return
+		}
+		s.check(storesAppendFuncFrom(ctor, allocBlk, 0), "AppendFunc:total", c.Pos(ctor.Pos()), "every path of "+ctor.Name()+" installs an encode routine", "a descriptor can leave "+ctor.Name()+" without an encode routine (AppendFunc nil for some kind): the generic map/list routines and the (DOUBLE, scalar) map fast paths call the key/value descriptor's AppendFunc for scalar kinds as well and would call a nil function")
+	})
+}
